@@ -113,7 +113,7 @@ def run(chk):
     sources = [(s, ()) for s in prog.repo_test_inputs()]
     n_gen = chk.scale(120, 1500)
     for i in range(n_gen):
-        sources.append((gen_c.program(chk.rng, placement=chk.rng.choice(["zp", "mixed", "abs"])).text, ()))
+        sources.append((gen_c.program(chk.rng, placement=chk.rng.choice(["zp", "mixed", "abs"]), shorts=chk.rng.random() < 0.4, probe=("lte16", "zero-compare", "reg-compare")).text, ()))
     nfun = 0
     for (src, defs) in sources:
         for level in (0, 1):
